@@ -585,7 +585,7 @@ func (eng *Engine) verifyFunction(fn *ssa.Function, con *Contract, bounded int) 
 		c.assume(st, ec.boolOf(r.Expr))
 	}
 	if pkg != nil {
-		for _, gf := range globalFacts[pkg.Path()] {
+		for _, gf := range append(append([]*Clause{}, globalFacts[pkg.Path()]...), con.GlobalFacts...) {
 			c.assume(st, ec.boolOf(gf.Expr))
 			c.note("assumed about package-level state of %s: %s", pkg.Path(), gf.Text)
 		}
